@@ -487,7 +487,7 @@ def c02_generate(rng, tier):
     a = gen_ewd_cases(rng, count(tier, 300, 3000), nmax=count(tier, 6, 8), viz_share=0, modes=(False,))
     a += gen_chain_debt_cases(rng, count(tier, 60, 1000), modes=(False,), viz_share=0)
     a += gen_uniform_debt_cases(rng, count(tier, 900, 8000), nmax=count(tier, 6, 7))
-    a += gen_long_path_debt_cases(rng, count(tier, 16, 300))
+    a += gen_long_path_debt_cases(rng, count(tier, 16, 96))
     tag_cmp(a, ["D", "verdict"], rel=["verdict"])
     b = genhist.gen_api(rng, count(tier, 200, 3000), nmax=count(tier, 6, 7))
     tag_cmp(b, ["q_reduction", "is_q_reduced", "is_winnable"], rel=["is_winnable"])
@@ -581,7 +581,7 @@ PROPS["C07"] = {"generate": c07_generate, "strata": algo_strata,
 # ---- C08
 def c08_generate(rng, tier):
     a = genhist.gen_dhar(rng, count(tier, 400, 6000), nmax=count(tier, 6, 8))
-    a += gen_long_path_debt_cases(rng, count(tier, 16, 300), op="dhar")
+    a += gen_long_path_debt_cases(rng, count(tier, 16, 96), op="dhar")
     # the sequence of recorded borrowing steps is not compared: only its result is pinned down
     # (least action); the recorded snapshots are C18's business
     return tag_cmp(a, ["after_debt", "unburnt", "after_fire", "superstable", "argtotal", "direct_unburnt", "direct_after"])
